@@ -1,0 +1,48 @@
+//go:build verif
+
+// Verification hooks (build tag "verif") for the traffic-pattern property, round 3. Add-only: thin
+// exported wrappers around unexported methods of aeadBlockCipher; no behaviour change.
+
+package cipher
+
+import (
+	"github.com/enfein/mieru/v3/pkg/appctl/appctlpb"
+)
+
+func verifPatternCipher(pattern *appctlpb.NoncePattern, implicit, applied bool) (*aeadBlockCipher, error) {
+	key := make([]byte, DefaultKeyLen)
+	c, err := newXChaCha20Poly1305BlockCipher(key)
+	if err != nil {
+		return nil, err
+	}
+	c.SetNoncePattern(pattern) // does not validate, like the production callers
+	c.enableImplicitNonce = implicit
+	c.noncePatternApplied = applied
+	return c, nil
+}
+
+// VerifNonceRewriteLens returns n results of aeadBlockCipher.nonceRewriteLen for a cipher
+// carrying the given (not validated) nonce pattern, and the cipher's nonce size.
+func VerifNonceRewriteLens(pattern *appctlpb.NoncePattern, n int) (lens []int, nonceSize int, err error) {
+	c, err := verifPatternCipher(pattern, false, false)
+	if err != nil {
+		return nil, 0, err
+	}
+	for i := 0; i < n; i++ {
+		lens = append(lens, c.nonceRewriteLen())
+	}
+	return lens, c.NonceSize(), nil
+}
+
+// VerifNewNonceTo runs aeadBlockCipher.newNonceTo once on a cipher whose enableImplicitNonce and
+// noncePatternApplied fields have the given values (pattern may be nil) and returns the nonce and
+// the value of noncePatternApplied afterwards.
+func VerifNewNonceTo(pattern *appctlpb.NoncePattern, implicit, applied bool) (nonce []byte, appliedAfter bool, err error) {
+	c, err := verifPatternCipher(pattern, implicit, applied)
+	if err != nil {
+		return nil, false, err
+	}
+	nonce = make([]byte, c.NonceSize())
+	err = c.newNonceTo(nonce)
+	return nonce, c.noncePatternApplied, err
+}
